@@ -206,6 +206,13 @@ class World:
             "ttne": {"get_child_indices": self.f["EC"], "get_parent_indices": self.f["EP"]},
         }
         self.overrides = {}
+        # any other method of the three classes is taken from the source (class hierarchy): helpers extracted by a refactoring are followed
+        self._mro = {}
+        for who, cname in (("ttns", "TTNS"), ("ttno", "TTNO"), ("ttne", "TTNEnviron")):
+            try:
+                self._mro[who] = src.mro(src.cls(TREE, cname))
+            except Exception:      # noqa: BLE001 - class renamed: the explicit tables above still work
+                self._mro[who] = []
 
         def resolver(recv, name):
             if isinstance(recv, T) and name in ("conj", "squeeze"):
@@ -216,6 +223,10 @@ class World:
                         return self.overrides[(who, name)]
                     if name in self.methods[who]:
                         return self.methods[who][name]
+                    if not (isinstance(recv, Sym) and name in recv.__dict__):
+                        for ci in self._mro[who]:
+                            if name in ci.methods:
+                                return ci.methods[name]
             if isinstance(recv, Sym) and name in recv.__dict__ and callable(recv.__dict__[name]):
                 return recv.__dict__[name]
             if isinstance(recv, Sym) and not isinstance(recv, Node) and callable(getattr(type(recv), name, None)):
